@@ -40,12 +40,13 @@ SchemaObsOK(s) ==
     \* lookup by name agrees with lookup by id, for every name the execution has ever used
     /\ Chk("schema.byname", \A k \in 1..Len(s.byname) :
             LET e == s.byname[k] IN
-            /\ Same(e.dim, IF IdxOf(dims', e.name) = 0 THEN "NC_EBADDIM" ELSE IdxOf(dims', e.name) - 1)
-            /\ Same(e.var, IF IdxOf(vars', e.name) = 0 THEN "NC_ENOTVAR" ELSE IdxOf(vars', e.name) - 1)
+            \* (the name is looked up in the spelling the application used; the model holds the normalised form)
+            /\ Same(e.dim, IF IdxOf(dims', e.norm) = 0 THEN "NC_EBADDIM" ELSE IdxOf(dims', e.norm) - 1)
+            /\ Same(e.var, IF IdxOf(vars', e.norm) = 0 THEN "NC_ENOTVAR" ELSE IdxOf(vars', e.norm) - 1)
             /\ Len(e.att) = Len(vars') + 1
-            /\ Same(e.att[1], IF IdxOf(gatts', e.name) = 0 THEN "NC_ENOTATT" ELSE IdxOf(gatts', e.name) - 1)
+            /\ Same(e.att[1], IF IdxOf(gatts', e.norm) = 0 THEN "NC_ENOTATT" ELSE IdxOf(gatts', e.norm) - 1)
             /\ \A t \in 1..Len(vars') :
-                  Same(e.att[t + 1], IF IdxOf(vars'[t].atts, e.name) = 0 THEN "NC_ENOTATT" ELSE IdxOf(vars'[t].atts, e.name) - 1))
+                  Same(e.att[t + 1], IF IdxOf(vars'[t].atts, e.norm) = 0 THEN "NC_ENOTATT" ELSE IdxOf(vars'[t].atts, e.norm) - 1))
 
 (* data of variable i as the decoder lists it (row-major, records outermost) against the model *)
 DataMatch(v, dd) ==
@@ -72,7 +73,7 @@ DiskObsOK(o) ==
     \* the header does not run into the first variable
     /\ Chk("disk.header-before-data", \A i \in 1..Len(d.vars) : d.vars[i].begin >= d.xsz)
     \* the library's own reports equal what is in the file
-    /\ ("layout" \in DOMAIN o) => Chk("layout.reports",
+    /\ ("layout" \in DOMAIN o /\ mode' = "data") => Chk("layout.reports",
             /\ o.layout.hsize = d.xsz
             /\ o.layout.recsize = (IF \E i \in 1..Len(vars') : IsRecVar(vars'[i]) THEN d.recsize ELSE 0)
             /\ Len(o.layout.offs) = Len(d.vars)
